@@ -45,7 +45,7 @@ G0 == [head |-> 0, phead |-> 0, lo |-> 0, dig |-> EmptyFn, pend |-> EmptyFn, reg
 
 NewStream(f, a, h) ==
   [from |-> f, a |-> a, pc |-> "open", sent |-> <<>>, nscan |-> 0, skipped |-> {}, dispAfter |-> {},
-   health |-> "ok", pred |-> 0, orphan |-> FALSE, repl |-> FALSE, seekmiss |-> FALSE, lost |-> {}, disp |-> 0, taken |-> 0, headOpen |-> h,
+   health |-> "ok", pred |-> 0, orphan |-> FALSE, repl |-> FALSE, seekmiss |-> FALSE, lost |-> {}, disp |-> 0, taken |-> 0, overflow |-> {}, headOpen |-> h,
    evict |-> FALSE, why |-> "none"]
 
 Alarm(mon, e, shape, detail) ==
@@ -102,6 +102,7 @@ StepSend(e) ==
          shape ==
            CASE v = "NoGap" ->
                   IF live /\ Between(last + 1, e.r - 1) \subseteq x.skipped THEN "put-between-scan-and-register"
+                  ELSE IF live /\ Between(last + 1, e.r - 1) \subseteq x.overflow THEN "queue-overflow-dropped"
                   ELSE IF ~live /\ g.backend = "mem" /\ x.evict THEN "memdb-eviction-shifts-cursor"
                   ELSE "other"
              [] v = "NoRepeat" ->
@@ -193,7 +194,10 @@ StepDispatch(e) ==
 StepPutDone(e) ==
   /\ e.ev = "PutDone"
   /\ LET D == Get(g.dset, e.r, {}) IN
-       ss' = [s \in DOMAIN ss |-> IF s \in D THEN [ss[s] EXCEPT !.disp = @ + 1] ELSE ss[s]]
+       ss' = [s \in DOMAIN ss |-> IF s \in D THEN [ss[s] EXCEPT !.disp = @ + 1,
+                                                    \* the Put returned although the stream's queue already held Q items
+                                                    !.overflow = IF ss[s].disp >= ss[s].taken + g.q THEN @ \cup {e.r} ELSE @]
+                                  ELSE ss[s]]
   /\ g' = [g EXCEPT !.wedged = FALSE, !.ppos = Upd(g.ppos, e.r, l)]
   /\ alarms' = alarms \cup (IF e.res # "ok" THEN {Alarm("Conformance", e, "store", "Put returned an error")} ELSE {})
   /\ scen' = scen
@@ -222,7 +226,7 @@ StepStreamBlocked(e) ==
 
 StepFault(e) ==
   /\ e.ev = "Fault" /\ Known(e)
-  /\ ss' = [ss EXCEPT ![e.s].health = e.k]
+  /\ ss' = [ss EXCEPT ![e.s].health = IF e.k = "resume" THEN "ok" ELSE e.k]
   /\ UNCHANGED <<g, alarms, scen>>
 
 StepEnd(e) ==
@@ -258,6 +262,7 @@ StepQuiesce(e) ==
                      \* a later round was dispatched before this stream registered, an earlier one afterwards
                      ELSE IF missing(s) # {} /\ \A m \in missing(s) : m \in ss[s].skipped \/ overtaken(s, m)
                        THEN "concurrent-puts-dispatch-reordered"
+                     ELSE IF missing(s) # {} /\ missing(s) \subseteq ss[s].overflow THEN "queue-overflow-dropped"
                      ELSE IF g.backend = "mem" /\ ss[s].evict THEN "memdb-eviction-shifts-cursor"
                      ELSE "other"
          A1 == {Alarm("LiveComplete", [ev |-> "Quiesce"], shape(s), "stream is open and healthy but has not received every stored round")
@@ -276,7 +281,7 @@ StepQuiesce(e) ==
                  ELSE {}
          mine == {a.mon : a \in {b \in alarms \cup A1 : b.scenario = scen}}
          A3 == IF hasX /\ \E i \in DOMAIN e.xtags : e.xtags[i] \notin mine
-                 THEN {Alarm("Conformance", [ev |-> "Quiesce"], "prediction", "a monitor failure predicted by the specification was not observed")}
+                 THEN {Alarm("Optimistic", [ev |-> "Quiesce"], "prediction", "a monitor failure predicted by the specification was not observed")}
                  ELSE {}
      IN alarms' = alarms \cup A1 \cup A2 \cup A3 \cup A4
   /\ UNCHANGED <<g, ss, scen>>
